@@ -20,6 +20,7 @@ import (
 	"go/printer"
 	"go/token"
 	"go/types"
+	"io/fs"
 	"os"
 	"os/exec"
 	"path/filepath"
@@ -317,6 +318,37 @@ func main() {
 	must(os.WriteFile(gen, []byte(cfgSrc), 0o644))
 	overlay[filepath.Join(*harness, "gw", "fibercfg_gen.go")] = gen
 	fp.Write([]byte(cfgSrc))
+
+	// every other source file of the tree (packages that are not instrumented are compiled into the binary as
+	// they are): the fingerprint, which keys the cache of built binaries, must change with any of them
+	instrumented := map[string]bool{}
+	for fname := range overlay {
+		instrumented[fname] = true
+	}
+	var rest []string
+	filepath.WalkDir(repoAbs, func(path string, d fs.DirEntry, err error) error {
+		if err != nil {
+			return nil
+		}
+		if d.IsDir() {
+			if n := d.Name(); n == ".git" || n == "verifsimrt" {
+				return filepath.SkipDir
+			}
+			return nil
+		}
+		n := d.Name()
+		if (strings.HasSuffix(n, ".go") && !strings.HasSuffix(n, "_test.go") && !instrumented[path]) || n == "go.mod" || n == "go.sum" {
+			rest = append(rest, path)
+		}
+		return nil
+	})
+	sort.Strings(rest)
+	for _, f := range rest {
+		b, _ := os.ReadFile(f)
+		rel, _ := filepath.Rel(repoAbs, f)
+		fp.Write([]byte(rel))
+		fp.Write(b)
+	}
 
 	ob, _ := json.MarshalIndent(map[string]any{"Replace": overlay}, "", " ")
 	must(os.WriteFile(filepath.Join(*out, "overlay.json"), ob, 0o644))
